@@ -4,6 +4,7 @@ import (
 	"bufio"
 	"encoding/hex"
 	"encoding/json"
+	"strconv"
 	"flag"
 	"fmt"
 	"math/rand"
@@ -33,6 +34,9 @@ type Event struct {
 	Mut    bool     `json:"mut"`
 	Stages []string `json:"stages"`
 	Msg    string   `json:"msg"` // the error text (foreign bytes abstracted)
+	Alias  bool     `json:"alias"`    // a slice returned by an earlier call was changed by the library
+	Unstable int    `json:"unstable"` // how many of the repetitions of this identical call answered differently (repeat flavour)
+	Reps   int      `json:"reps"`
 	RawHex []string `json:"rawhex,omitempty"` // the exact argument bytes (expression, then list), when abstraction changed them
 	RawE   string   `json:"-"`
 	RawA   []string `json:"-"`
@@ -71,7 +75,7 @@ func eventOf(o Obs, e string, a []string) Event {
 	stageSink = stageSink[:0]
 	ev := Event{Fn: o.Fn, E: abstractOther(e), A: absAll(a), Sat: o.Sat, Err: o.Err, OK: o.OK,
 		Bad: absAll(o.Invalid), Out: absAll(o.Out), OutNil: o.OutNil, Panic: o.Panic != "", Mut: o.Mutated,
-		Off: -1, Stages: st, RawE: e, RawA: a}
+		Off: -1, Stages: st, RawE: e, RawA: a, Alias: o.Aliased}
 	if o.Err {
 		ev.Off, ev.Lex = errOffset(o.ErrText)
 		ev.Msg = printable(o.ErrText)
@@ -608,6 +612,114 @@ func (g *gen) largeCall() Event {
 	return eventOf(obsSatisfies(e, a), e, a)
 }
 
+// ------------------------------------------------------------------ repetitions
+//
+// The same call many times: results that depend on goroutine scheduling, map iteration order, select's random
+// choice, pooled buffers or garbage collection differ between identical calls.  The calls are of the shapes an
+// implementation would parallelise or batch: long ValidateLicenses lists with invalid entries (also at the very
+// end), long allowed lists whose needed entry comes last, expressions with 16-64 alternatives that are satisfied
+// by exactly one of them, extractions of several hundred flattened terms.
+
+func (g *gen) repeatCalls() []func() (Obs, string, []string) {
+	plain := plainLicenses(g.t)
+	p := func() string { return plain[g.rng.Intn(len(plain))] }
+	var calls []func() (Obs, string, []string)
+	// long lists for ValidateLicenses
+	for k := 0; k < 3; k++ {
+		n := 18 + g.rng.Intn(60)
+		l := make([]string, n)
+		for i := range l {
+			l[i] = p()
+		}
+		for _, at := range []int{n - 1, n - 2, g.rng.Intn(n), g.rng.Intn(n), 5 % n, 8 % n} {
+			l[at] = g.pick([]string{"FOO-unknown", "MIT AND", "(", "LicenseRef-", "mit and isc"})
+		}
+		ll := l
+		calls = append(calls, func() (Obs, string, []string) { return obsValidate(ll), "", ll })
+	}
+	// long allowed lists, the needed entry last / first
+	for k := 0; k < 3; k++ {
+		n := 26 + g.rng.Intn(40)
+		l := make([]string, n)
+		for i := range l {
+			l[i] = p()
+		}
+		need := "LicenseRef-needed-" + strconv.Itoa(k)
+		l[n-1] = need
+		e := need + " AND " + l[0]
+		ll, ee := l, e
+		calls = append(calls, func() (Obs, string, []string) { return obsSatisfies(ee, ll), ee, ll })
+	}
+	// 16-64 alternatives, exactly one of them covered (and which one varies)
+	for k := 0; k < 4; k++ {
+		groups := 4 + g.rng.Intn(3)
+		var gs, allow []string
+		for i := 0; i < groups; i++ {
+			a, b := p(), p()
+			gs = append(gs, "("+a+" OR "+b+")")
+			if g.rng.Intn(2) == 0 {
+				allow = append(allow, a)
+			} else {
+				allow = append(allow, b)
+			}
+		}
+		e := strings.Join(gs, " AND ")
+		ee, aa := e, allow
+		calls = append(calls, func() (Obs, string, []string) { return obsSatisfies(ee, aa), ee, aa })
+		calls = append(calls, func() (Obs, string, []string) { return obsExtract(ee), ee, nil })
+	}
+	// a wide OR chain satisfied only by its last-sorting operand
+	{
+		var ops []string
+		for i := 0; i < 20+g.rng.Intn(20); i++ {
+			ops = append(ops, p())
+		}
+		ops = append(ops, "LicenseRef-zz-last")
+		e := strings.Join(ops, " OR ")
+		calls = append(calls, func() (Obs, string, []string) { return obsSatisfies(e, []string{"LicenseRef-zz-last"}), e, []string{"LicenseRef-zz-last"} })
+	}
+	// single-term extractions (the smallest results) interleaved with others
+	for k := 0; k < 3; k++ {
+		e := p()
+		calls = append(calls, func() (Obs, string, []string) { return obsExtract(e), e, nil })
+	}
+	return calls
+}
+
+func sameObs(a, b Obs) bool {
+	return a.Panic == b.Panic && a.Sat == b.Sat && a.Err == b.Err && a.OK == b.OK && a.OutNil == b.OutNil &&
+		sameStrings(a.Invalid, b.Invalid) && sameStrings(a.Out, b.Out) && a.ErrText == b.ErrText
+}
+
+func (g *gen) repeatEvents(reps int) []Event {
+	calls := g.repeatCalls()
+	first := make([]Obs, len(calls))
+	args := make([][2]interface{}, len(calls))
+	unstable := make([]int, len(calls))
+	alias := make([]bool, len(calls))
+	for r := 0; r < reps; r++ {
+		for i, c := range calls { // interleaved, so that pooled buffers travel between different calls
+			o, e, l := c()
+			if r == 0 {
+				first[i] = o
+				args[i] = [2]interface{}{e, l}
+			} else if !sameObs(o, first[i]) {
+				unstable[i]++
+			}
+			alias[i] = alias[i] || o.Aliased
+		}
+	}
+	var evs []Event
+	for i := range calls {
+		e, _ := args[i][0].(string)
+		l, _ := args[i][1].([]string)
+		ev := eventOf(first[i], e, l)
+		ev.Unstable, ev.Reps, ev.Alias = unstable[i], reps, alias[i]
+		evs = append(evs, ev)
+	}
+	return evs
+}
+
 // ------------------------------------------------------------------ sessions
 //
 // A session is a short HISTORY of related calls: the same few ids over and over, in every spelling a
@@ -847,6 +959,12 @@ func cmdDrive(args []string) int {
 	var pre []Event
 	if *flavor == "session" {
 		pre = g.sessionEvents(*n, *seed%2 == 0)
+		*n = len(pre)
+	}
+	if *flavor == "repeat" {
+		stageSink = nil
+		setHook(nil) // (stage recording is for single calls; the repeated calls run bare)
+		pre = g.repeatEvents(*n)
 		*n = len(pre)
 	}
 	for i := 0; i < *n; i++ {
